@@ -36,7 +36,9 @@ cp "$M/patch.diff" "$OUT/patch.diff"; cp "$M/demo_test.go" "$OUT/demo_test.go.tx
 BASE=$(git rev-parse HEAD)
 HEAD_REPO=$(git -C /repo rev-parse HEAD)
 git checkout -q --detach "$HEAD_REPO" || { echo "cannot move worktree to /repo HEAD"; exit 2; }
-if git apply "$OUT/patch.diff" 2>/dev/null || git apply --3way "$OUT/patch.diff" 2>/dev/null; then APPLY=0; git reset -q 2>/dev/null; else echo "patch does not apply to /repo HEAD"; APPLY=1; fi
+# (a change whose context was touched by a later fix: commit keeps a hand-rebased copy next to the original)
+HEADPATCH="$OUT/patch.diff"; [ -f "$OUT/patch.rebased.diff" ] && HEADPATCH="$OUT/patch.rebased.diff"
+if git apply "$HEADPATCH" 2>/dev/null || git apply --3way "$HEADPATCH" 2>/dev/null; then APPLY=0; git reset -q 2>/dev/null; else echo "patch does not apply to /repo HEAD"; APPLY=1; fi
 RES=""
 VOUT=/tmp/vout/$P-${SEED_TAG:-}$K; mkdir -p "$VOUT"
 if [ $APPLY = 0 ]; then
